@@ -62,6 +62,9 @@ def impl_tree(t):
 
 
 # ------------------------------------------------------------------ worker
+_FILE = {}
+
+
 def classify(s, public):
     """Returns None if fine, else (kind, detail)."""
     import gtirb.serialization as ser
@@ -128,6 +131,33 @@ def classify(s, public):
                 if want is not None and raised == "TypeNameError":
                     return ("save-of-%s-table-TypeNameError-on-valid" % cont,
                             "")
+            # ... and of a table that came from a file, was never read, and
+            # was given the name afterwards
+            if "loaded" not in _FILE:
+                ir_ = g_.IR()
+                m_ = g_.Module(name="m", ir=ir_)
+                ir_.aux_data["t"] = g_.AuxData(0, "uint64_t")
+                m_.aux_data["t"] = g_.AuxData(0, "uint64_t")
+                buf_ = io.BytesIO()
+                ir_.save_protobuf_file(buf_)
+                _FILE["loaded"] = buf_.getvalue()
+            for cont in ("ir", "module"):
+                ir_ = g_.IR.load_protobuf_file(io.BytesIO(_FILE["loaded"]))
+                c_ = ir_ if cont == "ir" else ir_.modules[0]
+                c_.aux_data["t"].type_name = s
+                try:
+                    ir_.save_protobuf_file(io.BytesIO())
+                    raised = None
+                except ser.TypeNameError:
+                    raised = "TypeNameError"
+                except Exception as e:  # noqa
+                    raised = type(e).__name__
+                if want is None and raised != "TypeNameError":
+                    return ("save-of-loaded-unread-%s-table-no-TypeNameError"
+                            % cont, str(raised))
+                if want is not None and raised == "TypeNameError":
+                    return ("save-of-loaded-unread-%s-table-TypeNameError-on-"
+                            "valid" % cont, "")
         # the same with a codec registered (documented extension point) under
         # the whole string as its key: acceptance and the tree must still
         # come from the grammar, not from the codec table
